@@ -43,6 +43,9 @@
 #include <sys/stat.h>
 #include <sys/wait.h>
 #include <sys/inotify.h>
+#include <pthread.h>
+#include <semaphore.h>
+#include <time.h>
 #include <iv.h>
 #include <iv_inotify.h>
 
@@ -65,6 +68,7 @@ struct react { int slot, occ; struct oplist ops; };
 
 static char script_id[128], fam[8] = "in";
 static int poison = 1;
+static int peer;	/* peer=1: a second thread runs its own loop and inotify instance meanwhile */
 static struct slotdef slotdef[MAXSLOT];
 static struct oplist initops, phase[MAXPHASE];
 static int nphase;
@@ -404,14 +408,20 @@ static void run_ops(const struct oplist *l, int quiet)
 }
 
 /* --------------------------------------------------------------- wrappers */
+static __thread int is_peer;
+
 int __wrap_inotify_init(void)
 {
+	if (is_peer)
+		return __real_inotify_init();
 	inofd = __real_inotify_init();
 	return inofd;
 }
 
 int __wrap_inotify_add_watch(int fd, const char *path, uint32_t mask)
 {
+	if (is_peer)
+		return __real_inotify_add_watch(fd, path, mask);
 	last_wd = __real_inotify_add_watch(fd, path, mask);
 	return last_wd;
 }
@@ -438,7 +448,7 @@ ssize_t __wrap_read(int fd, void *buf, size_t n)
 {
 	ssize_t r = __real_read(fd, buf, n);
 
-	if (fd >= 0 && fd == inofd) {
+	if (fd >= 0 && fd == inofd && !is_peer) {
 		int e = errno;
 		size_t cap = 65536, cnt = 0;
 		char *b = malloc(cap), *p = b;
@@ -460,6 +470,130 @@ ssize_t __wrap_read(int fd, void *buf, size_t n)
 	return r;
 }
 
+
+/* ------------------------------------------------------------------- peer */
+/* peer=1: another thread of the program has its own loop and its own inotify
+ * instance, watching its own directory in which three files were created
+ * before it starts reading.  It is let go when the scripted thread enters a
+ * handler (typically in the middle of a batch of records) and reads and
+ * handles its three events before that handler continues.  Instances of
+ * different threads share nothing, so neither side may notice the other. */
+static sem_t peer_ready, peer_go, peer_done;
+static int peer_state;		/* 0 none, 1 ready, 2 released */
+static pthread_t peer_thr;
+static char peer_dir[64];
+static int peer_n, peer_bad;
+static struct iv_inotify peer_inst;
+static struct iv_inotify_watch peer_watch;
+static struct iv_timer peer_tmo;
+
+static void peer_handler(void *cookie, struct inotify_event *e)
+{
+	peer_n++;
+	if (e->wd != peer_watch.wd || e->len < 3 || strncmp(e->name, "b_", 2) || !(e->mask & IN_CREATE))
+		peer_bad++;
+	if (peer_n == 3) {
+		iv_inotify_watch_unregister(&peer_watch);
+		iv_inotify_unregister(&peer_inst);
+		iv_timer_unregister(&peer_tmo);
+	}
+}
+
+static void peer_timeout(void *dummy)
+{
+	/* its events never came: give up (counts as a loss) */
+	iv_inotify_watch_unregister(&peer_watch);
+	iv_inotify_unregister(&peer_inst);
+}
+
+static void *peer_main(void *dummy)
+{
+	char path[96];
+
+	is_peer = 1;
+	iv_init();
+	memset(&peer_inst, 0xAA, sizeof peer_inst);
+	memset(&peer_watch, 0xAA, sizeof peer_watch);
+	IV_INOTIFY_INIT(&peer_inst);
+	if (iv_inotify_register(&peer_inst) == 0) {
+		IV_INOTIFY_WATCH_INIT(&peer_watch);
+		peer_watch.inotify = &peer_inst;
+		peer_watch.pathname = peer_dir;
+		peer_watch.mask = IN_CREATE;
+		peer_watch.handler = peer_handler;
+		if (iv_inotify_watch_register(&peer_watch) == 0) {
+			for (int i = 1; i <= 3; i++) {
+				snprintf(path, sizeof path, "%s/b_%d", peer_dir, i);
+				close(open(path, O_CREAT | O_WRONLY, 0600));
+			}
+			IV_TIMER_INIT(&peer_tmo);
+			peer_tmo.handler = peer_timeout;
+			sem_post(&peer_ready);
+			sem_wait(&peer_go);
+			iv_validate_now();
+			peer_tmo.expires = iv_now;
+			peer_tmo.expires.tv_sec += 3;
+			iv_timer_register(&peer_tmo);
+			iv_main();
+		} else {
+			iv_inotify_unregister(&peer_inst);
+			peer_bad = -1;
+			sem_post(&peer_ready);
+			sem_wait(&peer_go);
+		}
+	} else {
+		peer_bad = -1;
+		sem_post(&peer_ready);
+		sem_wait(&peer_go);
+	}
+	iv_deinit();
+	sem_post(&peer_done);
+	return NULL;
+}
+
+static void peer_start(void)
+{
+	snprintf(peer_dir, sizeof peer_dir, "../peer-%d", (int)getpid());
+	mkdir(peer_dir, 0700);
+	sem_init(&peer_ready, 0, 0);
+	sem_init(&peer_go, 0, 0);
+	sem_init(&peer_done, 0, 0);
+	if (pthread_create(&peer_thr, NULL, peer_main, NULL))
+		return;
+	sem_wait(&peer_ready);
+	peer_state = 1;
+}
+
+static void peer_release(void)
+{
+	struct timespec ts;
+
+	if (peer_state != 1)
+		return;
+	peer_state = 2;
+	sem_post(&peer_go);
+	clock_gettime(CLOCK_REALTIME, &ts);
+	ts.tv_sec += 8;
+	sem_timedwait(&peer_done, &ts);
+}
+
+static void peer_finish(void)
+{
+	char path[96];
+
+	if (!peer_state)
+		return;
+	peer_release();
+	pthread_join(peer_thr, NULL);
+	for (int i = 1; i <= 3; i++) {
+		snprintf(path, sizeof path, "%s/b_%d", peer_dir, i);
+		unlink(path);
+	}
+	rmdir(peer_dir);
+	if (peer_bad >= 0)
+		ev("{\"e\":\"Peer\",\"n\":%d,\"bad\":%d}", peer_n, peer_bad);
+}
+
 /* ---------------------------------------------------------------- handler */
 static void watch_handler(void *cookie, struct inotify_event *e)
 {
@@ -470,6 +604,7 @@ static void watch_handler(void *cookie, struct inotify_event *e)
 	ev("{\"e\":\"CbB\",\"o\":%d,\"wd\":%d,\"mask\":%u,\"ign\":%d,\"ck\":%u,\"lc\":%u,\"name\":\"%s\"}",
 	   o->oid, e->wd, e->mask & 0x7fffffff, !!(e->mask & IN_IGNORED), e->cookie % 1000000,
 	   (e->len + 15) / 16, e->len ? enc(e->name, e->len) : "");
+	peer_release();
 	depth++;
 	/* a watch removed by the kernel or declared one-shot is the user's again */
 	if (o->state == 1 && ((e->mask & IN_IGNORED) || o->oneshot))
@@ -518,8 +653,11 @@ static void run_script(void)
 	IV_TASK_INIT(&ptask);
 	ptask.handler = phase_task;
 	iv_task_register(&ptask);
+	if (peer)
+		peer_start();
 	iv_main();
 	check_touch();
+	peer_finish();
 	ev("{\"e\":\"End\",\"why\":\"ok\",\"sig\":0}");
 }
 
@@ -580,6 +718,7 @@ int main(int argc, char **argv)
 			for (int i = 2; i < nt; i++) {
 				if (!strncmp(tok[i], "fam=", 4)) snprintf(fam, sizeof fam, "%s", tok[i] + 4);
 				else if (!strncmp(tok[i], "poison=", 7)) poison = atoi(tok[i] + 7);
+				else if (!strncmp(tok[i], "peer=", 5)) peer = atoi(tok[i] + 5);
 			}
 			break;
 		case 'I':
